@@ -38,6 +38,14 @@ def segmentations(n, rng, k):
 
 
 def check(prop, tier, seed):
+    out = traces(prop, tier, seed)
+    if prop == "C16":
+        from . import store
+        out.append(store.inductive(tier))      # the change set is a mask over this dense storage
+    return out
+
+
+def traces(prop, tier, seed):
     params = {"maxpairs": 5 if tier == "quick" else 7, "rand": 300 if tier == "quick" else 5000}
     key = C.suite_key("cs", params, seed, tier)
     hit = C.cache_get(key)
